@@ -29,6 +29,18 @@ func d64j(x float64) D {
 			}
 		}
 	}
+	if !math.IsNaN(x) && !math.IsInf(x, 0) && math.Abs(x) >= 1<<30 {
+		// a huge value that is k * 2^j exactly (j = -q > 0): reported with a negative q
+		for q := -1; q >= -60; q-- {
+			y := math.Ldexp(x, q)
+			if math.Abs(y) < 1<<30 {
+				if y == math.Trunc(y) {
+					return D{1, int(y), q}
+				}
+				break
+			}
+		}
+	}
 	y := math.Round(math.Ldexp(x, 20))
 	if math.IsNaN(y) {
 		return D{0, 0, -1}
